@@ -108,6 +108,13 @@ def wrap(gen, kind, inner, depth, files):
             files[name] = "\n".join(["dropped A", "dropped B", "skipped line one", "", "a longer skipped line with the STARTMARK"] + lines) + "\n"
             out = ["```{include} " + name, ":start-line: 2", ":start-after: STARTMARK", "```"]
             return out, [(m, i + skip, k, (r[0] if r and r[0] else name)) if not (r and r[0]) else (m, i, k, r[0]) for m, i, k, *r in marks]
+        if kind == "inc-tail":
+            # the included file goes on after the inner block (after a nested include the rest of THIS file must still name this file)
+            tm = gen.mk().replace("MK", "FILETAILMK")
+            files[name] = "\n".join(lines + ["", tm + " rest of the included file"]) + "\n"
+            out = ["```{include} " + name, "```"]
+            return out, ([(m, i, k, (r[0] if r and r[0] else name)) if not (r and r[0]) else (m, i, k, r[0]) for m, i, k, *r in marks]
+                         + [(tm, len(lines) + 1, "paragraph", name)])
         if kind == "inc-after":
             # :start-after: a marker that ends line 3 of the file (the rest of that line and line 3's break are skipped text)
             files[name] = "\n".join(["skipped line one", "", "a longer skipped line with the STARTMARK"] + lines) + "\n"
@@ -132,7 +139,7 @@ def wrap(gen, kind, inner, depth, files):
 
 DIRS_FULL = [f"dir|{f}|{o}|{ba}|{bb}|{n}" for f in "`:" for o in ("none", "one", "two", "yaml", "yamlblank") for ba in "012" for bb in "01" for n in ("note", "admonition")]
 DIRS_SMALL = [f"dir|{f}|{o}|{ba}|{bb}|note" for f in "`:" for o in ("none", "one", "yaml") for ba, bb in (("0", "0"), ("1", "1"), ("2", "0"))]
-BASIC = ["quote", "bullet", "ordered", "div", "div-blank", "inc", "inc-start", "inc-after", "inc-start-after"]
+BASIC = ["quote", "bullet", "ordered", "div", "div-blank", "inc", "inc-tail", "inc-start", "inc-after", "inc-start-after"]
 
 
 def features(ws, leafkind):
@@ -246,7 +253,7 @@ class ShapeSystem(System):
             causes = []
             if file is not None:
                 causes.append("included-file-lines-plus-one")
-            if lk.startswith("firstline") and kind == "paragraph":
+            if lk.startswith("firstline") and kind == "paragraph" and not m.startswith(("TAIL", "FILETAIL")):
                 causes.append("body-on-argument-line-plus-one")
             if causes and delta == len(causes):
                 sig = {"clause": "line", "explained_by": "+".join(causes)}
@@ -360,7 +367,7 @@ class SphinxShapeSystem(ShapeSystem):
 def _first_marker(node):
     for t in node.findall(nodes.Text):
         for wd in t.astext().split():
-            if re.fullmatch(r"(sub|TAIL)?MK\d+", wd):
+            if re.fullmatch(r"(sub|TAIL|FILETAIL)?MK\d+", wd):
                 return wd
     return None
 
